@@ -69,7 +69,7 @@ def main():
             sh(f"git -C /repo worktree add {target} HEAD")
             rc, out = sh(f"git apply {patch}", cwd=target)
             assert rc == 0, out
-            env = dict(os.environ, VERIF_REPO=target, VERIF_EVIDENCE_DIR=f"/tmp/evalev_{sid}")
+            env = dict(os.environ, VERIF_REPO=target, VERIF_EVIDENCE_DIR=f"/tmp/evalev_{sid}", VERIF_REPLAY_DIR=f"/tmp/evalev_{sid}")
         else:
             rc, out = sh("git -C /repo status --porcelain")
             if out.strip():
@@ -77,7 +77,7 @@ def main():
                 sys.exit(2)
             rc, out = sh(f"git -C /repo apply {patch}")
             assert rc == 0, out
-            env = dict(os.environ, VERIF_EVIDENCE_DIR=f"/tmp/evalev_{sid}")
+            env = dict(os.environ, VERIF_EVIDENCE_DIR=f"/tmp/evalev_{sid}", VERIF_REPLAY_DIR=f"/tmp/evalev_{sid}")
         try:
             for p in [prop] + extra:
                 t0 = time.time()
